@@ -757,15 +757,17 @@ def apply_rewrites(text, rewrites):
             k_ = hit_[0]
             cp_ = match_close(toks_, k_ + 1)
             a_ = k_ + 2
-            if not (toks_[a_].text == "|" and toks_[a_ + 1].text == "mut" and toks_[a_ + 2].kind == "ident" and toks_[a_ + 3].text == "|" and toks_[a_ + 4].text == "{"):
-                raise Undecided("R19: pipe argument is not `|mut v| { .. }`")
-            bc_ = match_close(toks_, a_ + 4)
+            mut_ = toks_[a_ + 1].text == "mut"
+            b_ = a_ + (1 if mut_ else 0)     # index of the token before the parameter name
+            if not (toks_[a_].text == "|" and toks_[b_ + 1].kind == "ident" and toks_[b_ + 2].text == "|" and toks_[b_ + 3].text == "{"):
+                raise Undecided("R19: pipe argument is not `|[mut] v| { .. }`")
+            bc_ = match_close(toks_, b_ + 3)
             if bc_ + 1 != cp_:
                 raise Undecided("R19: pipe closure is not the only argument")
             st_ = recv_start(toks_, k_ - 1)
             recv_ = text[toks_[st_].start:toks_[k_ - 1].start]
-            inner_ = text[toks_[a_ + 4].end:toks_[bc_].start]
-            text = text[:toks_[st_].start] + "{ let mut " + toks_[a_ + 2].text + " = " + recv_.strip() + ";" + inner_ + "}" + text[toks_[cp_].end:]
+            inner_ = text[toks_[b_ + 3].end:toks_[bc_].start]
+            text = text[:toks_[st_].start] + "{ let " + ("mut " if mut_ else "") + toks_[b_ + 1].text + " = " + recv_.strip() + ";" + inner_ + "}" + text[toks_[cp_].end:]
         elif rw[0] == "DROPTIMER":   # R20: `let _timer = STAT_X.timer_secs("..");` (a metrics guard; no effect on the value computed) is dropped
             toks_ = tokenize(text)
             ed_ = Edit(text)
